@@ -34,7 +34,7 @@ CONSTANTS
   Same(_, _),                         \* equality of two computed values (exact on the lattice)
   VarOfRaw(_, _), RawOfVar(_, _),     \* TPL classes: var = raw * len_scale (hurst 1/2, rescale 1)
   Cfgs,                               \* set of configurations (see below)
-  Cand,                               \* adversary: argument name -> set of candidate values
+  Cand, CandEv,                       \* adversary: argument name -> candidate values (optimum / evaluations)
   MaxEv                               \* evaluations before the optimiser returns (>= 1)
 
 VARIABLES cfg, phase, ialts, cp, cm, evs, popt, iends, cend, disc
@@ -340,13 +340,13 @@ Disc(c, ies, ce) ==
    that was handed to the optimiser; entries of parameters that are not fitted
    are placeholders                                                          *)
 InBox(bx, v) == Le(bx.lo, v) /\ Le(v, bx.hi)
-Pick(pp, p, dflt) == IF pp.para[p] THEN {v \in Cand[p] : InBox(pp.box[p], v)} ELSE {dflt}
-Vecs(c, pp) ==
+Pick(cand, pp, p, dflt) == IF pp.para[p] THEN {v \in cand[p] : InBox(pp.box[p], v)} ELSE {dflt}
+Vecs(c, pp, cand) ==
   LET pm == Pub(c, pp.m) IN
   {[var |-> a, len |-> l, nug |-> n, opt |-> o, anis |-> s] :
-     a \in Pick(pp, "var", pm.var), l \in Pick(pp, "len", pm.len),
-     n \in Pick(pp, "nug", pm.nug), o \in Pick(pp, "opt", pm.opt),
-     s \in IF pp.fanis THEN [1..(c.dim - 1) -> {v \in Cand.anis : InBox(pp.box.anis, v)}]
+     a \in Pick(cand, pp, "var", pm.var), l \in Pick(cand, pp, "len", pm.len),
+     n \in Pick(cand, pp, "nug", pm.nug), o \in Pick(cand, pp, "opt", pm.opt),
+     s \in IF pp.fanis THEN [1..(c.dim - 1) -> {v \in cand.anis : InBox(pp.box.anis, v)}]
            ELSE {pm.anis}}
 
 Init ==
@@ -388,7 +388,9 @@ Finish(x) ==
   /\ disc' = disc \cup Disc(cfg, iends', cend')
   /\ UNCHANGED <<cfg, ialts, cp, cm, evs>>
 
-Next == PrePara \/ (phase = "ready" /\ \E x \in Vecs(cfg, cp) : Eval(x) \/ Finish(x))
+Next == \/ PrePara
+        \/ (phase = "ready" /\ \E x \in Vecs(cfg, cp, CandEv) : Eval(x))
+        \/ (phase = "ready" /\ \E x \in Vecs(cfg, cp, Cand) : Finish(x))
 
 Spec == Init /\ [][Next]_vars
 
@@ -399,7 +401,7 @@ Spec == Init /\ [][Next]_vars
 IdealSound ==
   phase = "ready" =>
     \A pp \in {q \in ialts : q.st = "ready"} :
-      \A x \in {y \in Vecs(cfg, cp) : InIdealBox(cfg, pp, y)} :
+      \A x \in {y \in Vecs(cfg, cp, Cand) : InIdealBox(cfg, pp, y)} :
         EndOK(cfg, pp, IdealPost(cfg, pp, x))
 
 (* a ready ideal outcome has legal values for everything that is not fitted *)
